@@ -45,6 +45,16 @@ def findRepo (hasGit : List String → Bool) : List String → Option (List Stri
   | [] => if hasGit [] then some [] else none
   | c :: parent => if hasGit (c :: parent) then some (c :: parent) else findRepo hasGit parent
 
+/-- `FindGitRepo(dirs...)`: the repository of every argument is looked up from THAT argument (never from the working
+directory); they must all be the same one. `none` = an error or no repository: `fix` refuses without --force.
+(`findRepoPath` returns "" when an argument is in no repository; a mix of "" and a repository is an error too.) -/
+def findRepoMulti (hasGit : List String → Bool) : List (List String) → Option (List String)
+  | [] => none
+  | d :: ds =>
+    match findRepo hasGit d with
+    | none => none
+    | some r => if ds.all (fun d' => findRepo hasGit d' = some r) then some r else none
+
 /-- the code before the repair compared repo-relative status keys with absolute provider paths -/
 def conflictingOld (statusKeys : List (List Char)) (modified : List (List Char)) : List (List Char) :=
   modified.filter fun f => statusKeys.contains f
